@@ -28,3 +28,66 @@ def int_coercible(x):
     if isinstance(x, float):
         return float_is_int32(x)
     return MIN_INT32 <= x <= MAX_INT32
+
+
+def float_is_finite(x):
+    """x is a float that is neither NaN nor an infinity"""
+    return isinstance(x, float) and x == x and x not in (math.inf, -math.inf)
+
+
+def _float_is_finite_symbolic(tr, args, env):
+    from vf.pyvc.values import VBool, VFloat
+    f = args[0]
+    return VBool(f.finite if isinstance(f, VFloat) else z3.BoolVal(False))
+
+
+float_is_finite.__symbolic__ = _float_is_finite_symbolic
+
+FLOAT_LIMIT = 2 ** 1024
+
+
+def float_coercible(x):
+    """x denotes a number a finite double can stand for: a finite float, a bool, or an integer of magnitude below 2**1024
+    (beyond that CPython's float() raises OverflowError; integers just below it that round up to 2**1024 also overflow - the run-time
+    reading uses CPython itself)"""
+    if x is None:
+        return False
+    if isinstance(x, float):
+        return float_is_finite(x)
+    try:
+        return float_is_finite(float(x))
+    except OverflowError:
+        return False
+
+
+def _float_coercible_symbolic(tr, args, env):
+    from vf.pyvc.values import VBool, VFloat, VInt, VNone
+    x = args[0]
+    if isinstance(x, VNone):
+        return VBool(z3.BoolVal(False))
+    if isinstance(x, VFloat):
+        return VBool(x.finite)
+    if isinstance(x, VBool):
+        return VBool(z3.BoolVal(True))
+    if isinstance(x, VInt):
+        return VBool(z3.And(x.e < FLOAT_LIMIT, x.e > -FLOAT_LIMIT))
+    raise TypeError("float_coercible: unsupported symbolic argument %r" % (x,))
+
+
+float_coercible.__symbolic__ = _float_coercible_symbolic
+
+
+def same_float_if_float(x, r):
+    """when the input already is a float the result is that float"""
+    return (not isinstance(x, float)) or (r == x)
+
+
+def _same_float_symbolic(tr, args, env):
+    from vf.pyvc.values import VBool, VFloat
+    x, r = args
+    if isinstance(x, VFloat) and isinstance(r, VFloat):
+        return VBool(z3.And(r.cls == x.cls, z3.Implies(x.finite, r.r == x.r)))
+    return VBool(z3.BoolVal(True))
+
+
+same_float_if_float.__symbolic__ = _same_float_symbolic
